@@ -575,6 +575,9 @@ def _describe(spec: dict, got: list, model: Reference, repeated_member: bool) ->
         classes.append("relation_through_origin_spanning_area")
     if identical:
         classes.append("identical_coordinates_pair")
+    hybrids = sum(1 for kind, _, _ in got if kind == HYBRID)
+    if hybrids > 1:
+        classes.append("hybrids_3_or_more" if hybrids > 2 else "hybrids_2")
     if model.extras:
         classes.append("promotion")
     if model.ambiguous:
@@ -618,8 +621,9 @@ def _signature(fix: str):
         allowed = set(ALWAYS)
         for name in detail["explained_by"]:
             allowed |= BREAKS[name]
-        if len(detail["explained_by"]) > 1:
-            # a grouping defect changes coordinates, which moves cases in and out of the lookup defect's reach
+        if any(len(proto["loc"]["parts"]) > 1 for proto in spec["protos"]):
+            # a repaired grouping has other coordinates, which can move an origin-spanning protocluster out of
+            # the lookup defect's reach: its clauses may show up without being part of the smallest explanation
             allowed |= BREAKS[FIX_LOOKUP]
         return set(detail.get("all_failed") or [clause]) <= allowed
     return matches
@@ -675,18 +679,27 @@ def form_specs(draw):
     hoods = [0, 0, 0, 1, 2, 5, 5, 20, 50, length // 4, length // 10, length // 10]
     if draw(st.integers(0, 3)) == 0:
         hoods.append(length)        # a neighbourhood that swallows the record
-    count = draw(st.sampled_from([1, 2, 2, 3, 3, 3, 4, 4, 4, 5, 5, 6, 7]))
+    count = draw(st.sampled_from([1, 2, 2, 3, 3, 3, 4, 4, 4, 5, 5, 6, 7, 8]))
     protos: list = []
+    twins: list = []
     for _ in range(count):
         mode = draw(st.sampled_from(["genes", "genes", "genes", "copy", "inside_core", "inside_extent", "arc",
-                                     "adjacent", "adjacent"]))
-        if not protos and mode in ("copy", "inside_core", "inside_extent", "adjacent"):
+                                     "adjacent", "adjacent", "twin", "twin"]))
+        if not protos and mode in ("copy", "inside_core", "inside_extent", "adjacent", "twin"):
             mode = "genes"
         product = draw(st.sampled_from(PRODUCTS))
         left = draw(st.sampled_from(hoods))
         right = left if draw(st.integers(0, 3)) else draw(st.sampled_from(hoods))
         start = size = None
-        if mode == "copy":
+        twin_of = None
+        if mode == "twin":
+            # same core as an earlier protocluster, another product, and (below) a gene in it made a core gene of
+            # both products: a chemical hybrid pair
+            twin_of = draw(st.integers(0, len(protos) - 1))
+            start, size = _arc_of(protos[twin_of]["core"], length)
+            others = [name for name in PRODUCTS if name != protos[twin_of]["product"]]
+            product = draw(st.sampled_from(others))
+        elif mode == "copy":
             base = draw(st.sampled_from(protos))
             if draw(st.booleans()):
                 protos.append({"core": base["core"], "loc": base["loc"], "product": product})
@@ -736,7 +749,9 @@ def form_specs(draw):
                 left = right = 0
         core = ring.arc_to_loc(start, size, length, 1)
         protos.append({"core": core, "loc": _extent(start, size, left, right, length, circular), "product": product})
-        if draw(st.integers(0, 9)) == 0:
+        if twin_of is not None:
+            twins.append((twin_of, len(protos) - 1))
+        elif draw(st.integers(0, 9)) == 0:
             protos[-1]["sideloaded"] = True
     # gene functions: biased to the products of the protoclusters whose core holds the gene
     for gene in genes:
@@ -748,6 +763,13 @@ def form_specs(draw):
             gene["core_for"] = draw(st.lists(st.sampled_from(PRODUCTS), unique=True, max_size=3))
         else:
             gene["core_for"] = []
+    for one, two in twins:
+        if protos[one].get("sideloaded"):
+            continue
+        for gene in genes:
+            if ring.contains(protos[one]["core"], gene["loc"]):
+                gene["core_for"] = sorted(set(gene["core_for"]) | {protos[one]["product"], protos[two]["product"]})
+                break
     indices = list(range(len(protos)))
     if len(protos) <= 3:
         perms = [list(p) for p in itertools.permutations(indices)]
